@@ -8,6 +8,7 @@ import (
 	"io/ioutil"
 	"math/rand"
 	"os"
+	"os/exec"
 	"path/filepath"
 	"regexp"
 	"sort"
@@ -65,6 +66,7 @@ type FamilyReport struct {
 	HarnessErr       []string                   `json:"harness_errors"`
 	RandomBehaviours int                        `json:"random_behaviours"` // seeded random behaviours added by the harness
 	AltRuns          int                        `json:"alt_runs"`          // alternative renderings of runs (C14 / C15 / C16) executed
+	Sweep            map[string]interface{}     `json:"sweep,omitempty"`   // native float32 sweep of family boundary (C19)
 }
 
 // SessFamily describes one session family: which TLC model enumerates it.
@@ -288,6 +290,61 @@ type behaviour struct {
 	Shape string
 	Meta  map[string]interface{}
 	Steps []map[string]interface{}
+}
+
+// float32Sweep runs the driver's sweep mode on the root type of shape c19.float and returns one synthetic behaviour
+// (copy of a template behaviour of that shape with the singular field set to the value) per reported value.
+func float32Sweep(env *pipeline.Env, driver string, behs []behaviour, tier string) ([]behaviour, map[string]interface{}, error) {
+	var tmpl *behaviour
+	for i := range behs {
+		if behs[i].Shape == "c19.float" && len(behs[i].Steps) > 0 && behs[i].Steps[0]["ev"] == "SetObj" {
+			tmpl = &behs[i]
+			break
+		}
+	}
+	if tmpl == nil {
+		return nil, map[string]interface{}{"skipped": "shape c19.float is not part of this run"}, nil
+	}
+	stride := "4099"
+	if tier == "thorough" {
+		stride = "61" // prime: every exponent and every low-bit pattern is visited; the full sweep (stride 1) takes ~50 min
+	}
+	out := filepath.Join(env.W, "sweep32.json")
+	cmd := exec.Command(driver, "-sweep32", tmpl.Key, out, stride)
+	if b, err := cmd.CombinedOutput(); err != nil {
+		return nil, nil, fmt.Errorf("float32 sweep failed: %v: %s", err, b)
+	}
+	raw, err := ioutil.ReadFile(out)
+	if err != nil {
+		return nil, nil, err
+	}
+	var sw map[string]interface{}
+	if err := json.Unmarshal(raw, &sw); err != nil {
+		return nil, nil, err
+	}
+	var extra []behaviour
+	vals, _ := sw["mismatches"].([]interface{})
+	field, _ := sw["field"].(string)
+	for i, v := range vals {
+		if i >= 16 {
+			break
+		}
+		nb := behaviour{ID: fmt.Sprintf("%s#sweep%d", tmpl.Shape, i), Key: tmpl.Key, Shape: tmpl.Shape, Meta: tmpl.Meta}
+		for k, st := range tmpl.Steps {
+			c := map[string]interface{}{}
+			json.Unmarshal(mustJSON(st), &c)
+			if k == 0 {
+				if obj, ok := c["obj"].(map[string]interface{}); ok {
+					if fs, ok := obj["f"].(map[string]interface{}); ok {
+						fs[field] = map[string]interface{}{"t": "s", "s": v}
+					}
+				}
+			}
+			nb.Steps = append(nb.Steps, c)
+		}
+		extra = append(extra, nb)
+	}
+	return extra, sw, nil
 }
 
 func pairIsBase(pair interface{}) bool {
@@ -568,6 +625,17 @@ func runSessionFamily(env *pipeline.Env, fam SessFamily, tier string, seed int64
 			rep.GenFail[r.Key] = fmt.Sprintf("exit %d: %.400s", r.Exit, r.Stderr)
 		}
 		rep.AltRuns += len(r.Alts)
+	}
+	// C19: every finite float32 (quick: every 4099th bit pattern) through the real converters of shape c19.float;
+	// values that do not come back become ordinary behaviours, judged by Trace.tla below
+	if fam.Name == "boundary" && only == "" {
+		extra, sw, err := float32Sweep(env, driver, behs, tier)
+		if err != nil {
+			return nil, err
+		}
+		rep.Sweep = sw
+		behs = append(behs, extra...)
+		rep.Behaviours = len(behs)
 	}
 	vecPath := filepath.Join(env.W, "vectors-"+fam.Name+".ndjson")
 	f, err := os.Create(vecPath)
